@@ -38,7 +38,8 @@ def indexOf? (h : List E) (p : E → Bool) : Option Nat :=
 def postOnce (h : List E) (actors : List String) : List String :=
   let (pre, mid, post) := split3 h
   actors.filterMap fun a =>
-    let stoppedBefore := countK pre a "postB" > 0
+    -- not running when Stop was called: its last incarnation before the marker was stopped (or it never started)
+    let stoppedBefore := countK pre a "postB" ≥ countK pre a "preE"
     let n := countK mid a "postB" + countK post a "postB"
     if stoppedBefore then (if n == 0 then none else some s!"post:{a}={n}(stopped-before)")
     else if n == 1 then none else some s!"post:{a}={n}"
@@ -47,8 +48,10 @@ def postOnce (h : List E) (actors : List String) : List String :=
 def childrenFirst (h : List E) (edges : List (String × String)) : List String :=
   let (pre, _, _) := split3 h
   edges.filterMap fun (c, p) =>
-    if countK pre c "postB" > 0 || countK pre p "postB" > 0 then none else
-    match indexOf? h (fun e => e.who == c && e.kind == "postE"), indexOf? h (fun e => e.who == p && e.kind == "postB") with
+    if countK pre c "postB" ≥ countK pre c "preE" || countK pre p "postB" ≥ countK pre p "preE" then none else
+    let off := pre.length
+    let tl := h.drop off
+    match indexOf? tl (fun e => e.who == c && e.kind == "postE"), indexOf? tl (fun e => e.who == p && e.kind == "postB") with
     | some i, some j => if i < j then none else some s!"order:{c}>{p}"
     | none, some _ => some s!"order:{c}-never-stopped-before-{p}"
     | _, none => none
